@@ -193,11 +193,13 @@ PLAN = {
             {"run": "TestC15_Matrix", "checks": 3},
             {"run": "TestC15_Transient", "checks": 400},
             {"run": "TestC15_LongBudget", "checks": 150},
+            {"run": "TestC15_Schedule", "checks": 4000},
         ],
         "thorough": [
             {"run": "TestC15_Matrix", "checks": 520, "shards": 16, "timeout": 7200},
             {"run": "TestC15_Transient", "checks": 100000, "shards": 4, "timeout": 7200},
             {"run": "TestC15_LongBudget", "checks": 20000, "shards": 4, "timeout": 7200},
+            {"run": "TestC15_Schedule", "checks": 2000000, "shards": 4, "timeout": 7200},
         ],
     },
     "C16": {
